@@ -77,6 +77,7 @@ type gfsCase struct {
 	chunk      int
 	tracked    bool
 	bucketOpt  bool // chunk size given on the bucket instead of the upload
+	noOpt      bool // no chunk size option anywhere (only for the default chunk size)
 	content    gfsContent
 	life       []gfsOp
 	script     []gfsOp
@@ -178,7 +179,7 @@ func gfsRun(c *gfsCase, req string) (reply string, viols []run.Violation) {
 	defer engine.Close()
 	db := client.Database("gfs")
 	bopt := options.GridFSBucket().SetName("fs")
-	if c.bucketOpt {
+	if c.bucketOpt && !c.noOpt {
 		bopt.SetChunkSizeBytes(int32(c.chunk))
 	}
 	b := lungo.NewBucket(db, bopt)
@@ -186,7 +187,7 @@ func gfsRun(c *gfsCase, req string) (reply string, viols []run.Violation) {
 		b.EnableTracking()
 	}
 	uopt := func() []*options.UploadOptions {
-		if c.bucketOpt {
+		if c.bucketOpt || c.noOpt {
 			return nil
 		}
 		return []*options.UploadOptions{options.GridFSUpload().SetChunkSizeBytes(int32(c.chunk))}
@@ -565,7 +566,7 @@ func gfsScript(r *gen.R, L, c, maxOps int, big bool) (ops []gfsOp, seeks bool, b
 
 func gfsGenCase(r *gen.R) *gfsCase {
 	c := &gfsCase{}
-	big := r.P(3)
+	big := r.P(2)
 	var L int
 	if big {
 		c.chunk = []int{255 * 1024, 1 << 20, 65536, gfsBuf, 4 << 20, gfsBuf / 2, 1000000}[r.N(7)]
@@ -615,6 +616,7 @@ func gfsGenCase(r *gen.R) *gfsCase {
 	}
 	c.tracked = r.P(40)
 	c.bucketOpt = r.P(25)
+	c.noOpt = c.chunk == int(options.DefaultChunkSize) && r.P(50)
 	maxWrites := 24
 	if L > 100000 {
 		maxWrites = 8
@@ -733,6 +735,9 @@ func gfsTags(c *gfsCase) []string {
 	if L > gfsBuf {
 		tags = append(tags, "len:over-buffer")
 	}
+	if c.noOpt {
+		tags = append(tags, "chunk:no-option")
+	}
 	if c.chunk == 255*1024 {
 		tags = append(tags, "chunk:default")
 	} else if c.chunk < 16 {
@@ -836,7 +841,7 @@ func init() {
 	run.Register(&run.Stream{
 		Name: "gridfs",
 		Rule: "one upload lifecycle (plain / abort / abort+reupload / delete(+cleanup) / tracked suspend-open-resume segments / error probes) " +
-			"with content length k*c+d around multiples of the chunk size c (3% around the " + strconv.Itoa(gfsBuf) + "-byte upload buffer), a write partition, " +
+			"with content length k*c+d around multiples of the chunk size c (2% around the " + strconv.Itoa(gfsBuf) + "-byte upload buffer), a write partition, " +
 			"and a read/seek/skip script on the download stream; non-trivial = length not a multiple of the chunk size or the script seeks/skips",
 		Gen: func(r *gen.R, idx int) []run.Case {
 			return []run.Case{gfsExec(gfsGenCase(r))}
